@@ -1,0 +1,206 @@
+//! Access points for the external verification harness (property-based tests and fuzz targets
+//! kept outside this repository).
+//!
+//! Compiled only with `--features verif_hooks`; nothing here is reachable from Python and
+//! nothing in the rest of the crate depends on it. Every function is a thin wrapper around a
+//! crate-private item, so that the harness exercises exactly the code Python would.
+
+use crate::calendars::{Cal, CalType, Convention, Modifier, NamedCal, UnionCal};
+use crate::curves::curve_py::{Curve, CurveInterpolator};
+use crate::curves::interpolation::utils::index_left;
+use crate::curves::{
+    FlatBackwardInterpolator, FlatForwardInterpolator, LinearInterpolator,
+    LinearZeroRateInterpolator, LogLinearInterpolator, NullInterpolator,
+};
+use crate::dual::{ADOrder, Dual, Dual2, Number};
+use crate::fx::rates::FXRates;
+use crate::json::json_py::DeserializedObj;
+use crate::json::JSON;
+use crate::splines::{PPSpline, PPSplineDual, PPSplineDual2, PPSplineF64};
+use chrono::NaiveDateTime;
+use indexmap::IndexMap;
+use pyo3::PyErr;
+
+/// `curves::interpolation::utils::index_left` on a list of floats (as exported to Python).
+pub fn index_left_f64(list_input: &[f64], value: f64) -> usize {
+    index_left(list_input, &value, None)
+}
+
+/// `curves::interpolation::utils::index_left` on a list of integer timestamps (as used by curves).
+pub fn index_left_i64(list_input: &[i64], value: i64) -> usize {
+    index_left(list_input, &value, None)
+}
+
+/// The interpolation rules selectable on the Python-facing curve.
+#[derive(Debug, Clone, Copy, PartialEq, Eq)]
+pub enum VInterp {
+    LogLinear,
+    Linear,
+    LinearZeroRate,
+    FlatForward,
+    FlatBackward,
+    Null,
+}
+
+impl VInterp {
+    fn build(self) -> CurveInterpolator {
+        match self {
+            VInterp::LogLinear => CurveInterpolator::LogLinear(LogLinearInterpolator::new()),
+            VInterp::Linear => CurveInterpolator::Linear(LinearInterpolator::new()),
+            VInterp::LinearZeroRate => {
+                CurveInterpolator::LinearZeroRate(LinearZeroRateInterpolator::new())
+            }
+            VInterp::FlatForward => CurveInterpolator::FlatForward(FlatForwardInterpolator::new()),
+            VInterp::FlatBackward => {
+                CurveInterpolator::FlatBackward(FlatBackwardInterpolator::new())
+            }
+            VInterp::Null => CurveInterpolator::Null(NullInterpolator::new()),
+        }
+    }
+}
+
+/// The Python-facing curve object (`rateslib.rs.Curve`).
+#[derive(Clone)]
+pub struct VCurve(Curve);
+
+impl VCurve {
+    /// The Python constructor: unsorted nodes of any number kind plus the initial AD order.
+    #[allow(clippy::too_many_arguments)]
+    pub fn new(
+        nodes: IndexMap<NaiveDateTime, Number>,
+        interpolator: VInterp,
+        ad: ADOrder,
+        id: &str,
+        convention: Convention,
+        modifier: Modifier,
+        calendar: CalType,
+        index_base: Option<f64>,
+    ) -> Result<Self, PyErr> {
+        Ok(VCurve(Curve::verif_new(
+            nodes,
+            interpolator.build(),
+            ad,
+            id.to_string(),
+            convention,
+            modifier,
+            calendar,
+            index_base,
+        )?))
+    }
+
+    /// `curve[date]`
+    pub fn get(&self, date: &NaiveDateTime) -> Number {
+        self.0.verif_get(*date)
+    }
+
+    pub fn set_ad_order(&mut self, ad: ADOrder) -> Result<(), PyErr> {
+        self.0.verif_set_ad_order(ad)
+    }
+
+    pub fn index_value(&self, date: &NaiveDateTime) -> Result<Number, PyErr> {
+        self.0.verif_index_value(*date)
+    }
+
+    pub fn ad(&self) -> ADOrder {
+        self.0.verif_ad()
+    }
+
+    pub fn nodes(&self) -> IndexMap<NaiveDateTime, Number> {
+        self.0.verif_nodes()
+    }
+
+    pub fn node_index(&self, date_timestamp: i64) -> usize {
+        self.0.verif_inner().node_index(date_timestamp)
+    }
+
+    /// `curve == other` as evaluated for Python.
+    pub fn equals(&self, other: &VCurve) -> bool {
+        self.0.verif_eq(&other.0)
+    }
+
+    /// Direct (untagged) JSON of the wrapper, via the `JSON` trait.
+    pub fn to_json(&self) -> Result<String, String> {
+        self.0.to_json().map_err(|e| e.to_string())
+    }
+
+    pub fn from_json(json: &str) -> Result<Self, String> {
+        Curve::from_json(json)
+            .map(VCurve)
+            .map_err(|e| e.to_string())
+    }
+
+    /// The pickling state (`__getstate__`).
+    pub fn to_bincode(&self) -> Result<Vec<u8>, String> {
+        bincode::serialize(&self.0).map_err(|e| e.to_string())
+    }
+
+    /// The pickling state (`__setstate__`), without the `unwrap`.
+    pub fn from_bincode(bytes: &[u8]) -> Result<Self, String> {
+        bincode::deserialize::<Curve>(bytes)
+            .map(VCurve)
+            .map_err(|e| e.to_string())
+    }
+}
+
+/// Mirror of the crate-private tagged container behind Python's `from_json`.
+#[derive(Clone)]
+pub enum VObj {
+    Dual(Dual),
+    Dual2(Dual2),
+    Cal(Cal),
+    UnionCal(UnionCal),
+    NamedCal(NamedCal),
+    FXRates(FXRates),
+    Curve(VCurve),
+    PPSplineF64(PPSpline<f64>),
+    PPSplineDual(PPSpline<Dual>),
+    PPSplineDual2(PPSpline<Dual2>),
+}
+
+impl VObj {
+    fn into_obj(self) -> DeserializedObj {
+        match self {
+            VObj::Dual(v) => DeserializedObj::Dual(v),
+            VObj::Dual2(v) => DeserializedObj::Dual2(v),
+            VObj::Cal(v) => DeserializedObj::Cal(v),
+            VObj::UnionCal(v) => DeserializedObj::UnionCal(v),
+            VObj::NamedCal(v) => DeserializedObj::NamedCal(v),
+            VObj::FXRates(v) => DeserializedObj::FXRates(v),
+            VObj::Curve(v) => DeserializedObj::Curve(v.0),
+            VObj::PPSplineF64(v) => DeserializedObj::PPSplineF64(PPSplineF64 { inner: v }),
+            VObj::PPSplineDual(v) => DeserializedObj::PPSplineDual(PPSplineDual { inner: v }),
+            VObj::PPSplineDual2(v) => DeserializedObj::PPSplineDual2(PPSplineDual2 { inner: v }),
+        }
+    }
+
+    fn from_obj(obj: DeserializedObj) -> Self {
+        match obj {
+            DeserializedObj::Dual(v) => VObj::Dual(v),
+            DeserializedObj::Dual2(v) => VObj::Dual2(v),
+            DeserializedObj::Cal(v) => VObj::Cal(v),
+            DeserializedObj::UnionCal(v) => VObj::UnionCal(v),
+            DeserializedObj::NamedCal(v) => VObj::NamedCal(v),
+            DeserializedObj::FXRates(v) => VObj::FXRates(v),
+            DeserializedObj::Curve(v) => VObj::Curve(VCurve(v)),
+            DeserializedObj::PPSplineF64(v) => VObj::PPSplineF64(v.inner),
+            DeserializedObj::PPSplineDual(v) => VObj::PPSplineDual(v.inner),
+            DeserializedObj::PPSplineDual2(v) => VObj::PPSplineDual2(v.inner),
+        }
+    }
+}
+
+/// What each Python object's `to_json` produces: the tagged container serialised with `JSON`.
+pub fn tagged_to_json(obj: &VObj) -> Result<String, String> {
+    obj.clone().into_obj().to_json().map_err(|e| e.to_string())
+}
+
+/// What Python's `from_json` does before handing the object back (same error mapping, as text).
+pub fn tagged_from_json(json: &str) -> Result<VObj, String> {
+    match DeserializedObj::from_json(json) {
+        Ok(v) => Ok(VObj::from_obj(v)),
+        Err(e) => Err(format!(
+            "Could not create Class or Struct from given JSON.\n{}",
+            e
+        )),
+    }
+}
